@@ -236,6 +236,37 @@ func runC14(c *Ctx) {
 	}
 	c.MinInstances("C14.R7 ID-index writes", nIdx, 2)
 
+	// ---- R7b the converse: a removal from a sender list by nonce is the removal of a pooled
+	// transaction — it happens only where the ID-index lookup of that very transaction
+	// succeeded (under the same lock), and the nonce removed is the one of the entry found.
+	// Removing by the nonce of a transaction remembered from earlier tears out whatever
+	// occupies that nonce now (a replacement accepted in between).
+	{
+		n := 0
+		for _, fn := range p.Subjects() {
+			if !strings.HasPrefix(FuncKey(fn), "pkg/txpool.(*TransactionPool).") || len(fn.Blocks) == 0 {
+				continue
+			}
+			ff := factsOf(fn)
+			for _, s := range CallsIn(fn, "(*txpool.addressTransactions).Remove") {
+				n++
+				gf := ff
+				if s.Fn != fn {
+					gf = factsOf(s.Fn)
+				}
+				nonce := gf.Term(ArgK(s.Call, 1))
+				fromEntry := nonce.Any(func(t *Term) bool {
+					return t.Op == "extract" && t.Sym == "#0" && len(t.Args) == 1 && t.Args[0].Op == "lookup" && strings.HasSuffix(t.Args[0].Args[0].String(), ".allTransactions")
+				})
+				found := gf.EveryPathHas(s.Call.Block(), func(f Fact) bool {
+					return !f.IsCmp && f.Truth && f.B.Op == "extract" && f.B.Sym == "#1" && len(f.B.Args) == 1 && f.B.Args[0].Op == "lookup" && strings.HasSuffix(f.B.Args[0].Args[0].String(), ".allTransactions")
+				})
+				c.Require("C14.R7 list-removal-of-a-pooled-transaction", FuncKey(fn)+": per-sender Remove("+nonce.String()+")", p.InstrPos(s.Call), "a sender-list removal is dominated by a successful ID-index lookup and removes the nonce of the entry found", fromEntry && found, fmt.Sprintf("nonce from the entry found=%v, lookup succeeded on every path=%v", fromEntry, found))
+			}
+		}
+		c.MinInstances("C14.R7 list-removal-of-a-pooled-transaction", n, 1)
+	}
+
 	// ---- R8 must-consume replaced ID
 	{
 		sites := CallsIn(add, "(*txpool.addressTransactions).Add")
